@@ -118,3 +118,25 @@ for rev, act, ini, fin in ((False, False, 'reactants', 'products'), (True, False
                            (False, True, 'reactants', 'transition state'), (True, True, 'products', 'transition state')):
     contract(RX + '_get_states', P, label='rev=%s,act=%s' % (rev, act), args=dict(rev=Const(rev), act=Const(act)),
              ensures=['result[0] == %r and result[1] == %r' % (ini, fin)], cross_check=False)
+
+# ---- the same identities in energy units (the dimensional getters are evaluated at the same temperature) -------------------
+for cls in ('Reaction',):
+    qual = RX + cls
+    rx = lambda: reaction(qual, 2, 1, 1)
+    for g, u, tdep in (('Cv', 'J/mol/K', False), ('Cp', 'J/mol/K', False), ('S', 'J/mol/K', False), ('U', 'kJ/mol', True), ('H', 'kJ/mol', True),
+                       ('F', 'kJ/mol', True), ('G', 'kJ/mol', True), ('E', 'kJ/mol', True)):
+        CALL = "units=%r, T=T, P=P, R0_kwargs=R0_kwargs" % u
+        if g == 'E':
+            CALL += ', include_ZPE=False'     # stated explicitly on both sides (abstract species distinguish given from defaulted options)
+        rel = [('change-is-final-minus-initial-state',
+                "self.get_delta_%s(%s) == self.get_%s_state(state='products', %s) - self.get_%s_state(state='reactants', %s)"
+                % (g, CALL, g, CALL, g, CALL)),
+               ('activation-change-is-TS-minus-initial-state',
+                "self.get_delta_%s(act=True, %s) == self.get_%s_state(state='transition state', %s) - self.get_%s_state(state='reactants', %s)"
+                % (g, CALL, g, CALL, g, CALL)),
+               ('reversal', 'self.get_delta_%s(rev=True, %s) == -self.get_delta_%s(rev=False, %s)' % (g, CALL, g, CALL))]
+        if g != 'E':
+            rel.append(('forward-minus-reverse-activation',
+                        'self.get_%s_act(rev=False, %s) - self.get_%s_act(rev=True, %s) == self.get_delta_%s(%s)' % (g, CALL, g, CALL, g, CALL)))
+        lemma('%s:dimensional:%s' % (cls, g), P, forall=dict(self=rx(), T=T, P=PR, R0_kwargs=R0_BLOCK), given=STOICH_POS + ['T > 0'],
+              prove=rel)
